@@ -114,8 +114,15 @@ func LoadProgram(dir string, overlay map[string][]byte, env []string, tags strin
 	} else {
 		return nil, fmt.Errorf("package cmd/helios not found")
 	}
+	p.resolveRenames()
 	return p, nil
 }
+
+// typeAlias maps an actual "pkgname.TypeName" to the canonical one; typeActual is the inverse, keyed
+// by "pkgpath-suffix.TypeName".
+var typeAlias = map[string]string{}
+var typeActual = map[string]string{}
+
 
 func cleanEnv() []string {
 	var out []string
@@ -204,6 +211,11 @@ func (p *Program) Fn(pkg, recv, name string) *ssa.Function {
 	}
 	t := sp.Type(recv)
 	if t == nil {
+		if actual, ok := typeActual[pkg+"."+recv]; ok {
+			t = sp.Type(actual)
+		}
+	}
+	if t == nil {
 		return nil
 	}
 	for _, typ := range []types.Type{types.NewPointer(t.Type()), t.Type()} {
@@ -227,6 +239,11 @@ func (p *Program) Named(pkg, name string) *types.Named {
 		return nil
 	}
 	t := sp.Type(name)
+	if t == nil {
+		if actual, ok := typeActual[pkg+"."+name]; ok {
+			t = sp.Type(actual)
+		}
+	}
 	if t == nil {
 		return nil
 	}
